@@ -475,7 +475,7 @@ Section Contracts.
   Notation write_dump' := (write_dump pack marshal esz gz).
   Notation live' := (live_entries pack).
 
-  (** *** admitting entries *)
+  (** *** storing entries *)
   Lemma store_entries_app now a b :
     store_entries' now (a ++ b) =
     let '(ia, oka) := store_entries' now a in
@@ -699,9 +699,6 @@ Section Contracts.
     destruct (trunc_s (i_cexp it) <? now2)%Z; cbn [negb map]; reflexivity.
   Qed.
 
-  Lemma live_count now c : forall its, its = live' now c -> length its = length (live' now c).
-  Proof. now intros ? ->. Qed.
-
   Definition all_fit (now : Z) (c : cache M) : Prop :=
     forall e, In e (live' now c) -> esz e + 16 <= limit.
 
@@ -739,7 +736,7 @@ Section Contracts.
   Qed.
 
   (** a truncated copy of any file writeDump produced: an error is reported,
-      and the items admitted are a prefix of what the intact file admits *)
+      and the items stored are a prefix of what the intact file stores *)
   Theorem truncated_prefix now1 now2 c file z :
     gzip_ok -> gzip_cut_ok ->
     write_dump' now1 c = Some file -> strict_prefix z file ->
